@@ -29,6 +29,7 @@ type Step struct {
 	Muts  []MutSpec  `json:"muts,omitempty"` // blockmut: the single mutations to show the node first
 	Secs  int64      `json:"secs,omitempty"`
 	Task  int        `json:"task,omitempty"` // race mode: the logical thread that executes the step (-1: sequential prologue)
+	Conf  *ConfSpec  `json:"conf,omitempty"` // conf: a local configuration file for settings.SetupConfig (confsweep.go)
 }
 
 type Engine struct{}
@@ -232,6 +233,10 @@ func (s *sim) start(fresh bool) error {
 func (s *sim) step(st *Step) {
 	c := s.c
 	switch st.Op {
+	case "conf":
+		if st.Conf != nil {
+			s.confStep(st.Conf)
+		}
 	case "sleep":
 		time.Sleep(time.Duration(st.Secs) * time.Second)
 		c.AddSimSeconds(float64(st.Secs))
